@@ -19,6 +19,7 @@ import (
 	"github.com/plgd-dev/go-coap/v3/message/pool"
 	"github.com/plgd-dev/go-coap/v3/net/observation"
 	"github.com/plgd-dev/go-coap/v3/net/responsewriter"
+	"github.com/plgd-dev/go-coap/v3/options/config"
 	"github.com/plgd-dev/go-coap/v3/udp/client"
 
 	"verif/ev"
@@ -77,10 +78,11 @@ type cfg struct {
 	Two     bool // two simultaneous observations, notifications for either token
 	Preempt int
 	CON     bool // notifications are confirmable
+	Conc    bool // every received message is processed in its own thread (exported ProcessReceivedMessage option); notifications injected back to back
 }
 
 func (c cfg) String() string {
-	return fmt.Sprintf("observe reg=%s depth=%d two=%v con-notifications=%v preempt<=%d", c.Reg, c.Depth, c.Two, c.CON, c.Preempt)
+	return fmt.Sprintf("observe reg=%s depth=%d two=%v con-notifications=%v concurrent-processing=%v preempt<=%d", c.Reg, c.Depth, c.Two, c.CON, c.Conc, c.Preempt)
 }
 
 var seqAlphabet = []uint32{0, 1, 2, 1 << 23, 1<<23 + 1, 1<<24 - 1}
@@ -113,8 +115,14 @@ func scenario(c cfg) *mcx.Scenario {
 			obs := make([]*obsState, nobs)
 			delivered := 0
 			vrt.App("peer", func() {
-				w := udpw.New(udpw.Opts{NStart: 4, MaxRetransmit: 0, LimitTotal: 8, LimitEndpoint: 8, QueueSize: 4,
-					Handler: func(_ *responsewriter.ResponseWriter[*client.Conn], r *pool.Message) {}})
+				uo := udpw.Opts{NStart: 4, MaxRetransmit: 0, LimitTotal: 8, LimitEndpoint: 8, QueueSize: 4,
+					Handler: func(_ *responsewriter.ResponseWriter[*client.Conn], r *pool.Message) {}}
+				if c.Conc {
+					uo.Process = func(req *pool.Message, cc *client.Conn, h config.HandlerFunc[*client.Conn]) {
+						vrt.Lib("process-msg", func() { cc.ProcessReceivedMessageWithHandler(req, h) })
+					}
+				}
+				w := udpw.New(uo)
 				ctxs := make([]context.CancelFunc, nobs)
 				for i := range obs {
 					i := i
@@ -302,6 +310,11 @@ func scenario(c cfg) *mcx.Scenario {
 							typ = message.Confirmable
 						}
 						_ = w.Inject(mkNote(e.i, obs[e.i].token, typ, w.PeerMID(), codes.Content, true, e.v, false))
+						if c.Conc {
+							// a duplicate (same sequence number, same instant) right behind it, processed concurrently
+							hist = append(hist, fmt.Sprintf("dup%d(seq=%d)", e.i, e.v))
+							_ = w.Inject(mkNote(e.i, obs[e.i].token, typ, w.PeerMID(), codes.Content, true, e.v, false))
+						}
 					case "cancel":
 						hist = append(hist, fmt.Sprintf("cancel%d", e.i))
 						cancelsIssued++
@@ -360,6 +373,7 @@ func main() {
 	}
 	scs = append(scs, scenario(cfg{Reg: "205obs", Depth: ev.Pick(r, 2, 3), Two: true}))
 	scs = append(scs, scenario(cfg{Reg: "205obs", Depth: 2, Preempt: 1}))
+	scs = append(scs, scenario(cfg{Reg: "205obs", Depth: 1, Conc: true, Preempt: ev.Pick(r, 2, 3)}))
 	sum := mcx.Explore(r, scs, mcx.Config{Wall: ev.Pick(r, 4*time.Minute, 30*time.Minute)})
 	mcx.Report(r, scs, sum)
 	// vacuity guard: some explored stream must have delivered several notifications
